@@ -13,6 +13,7 @@
 static const uint8_t CANARY[8] = {0xC5, 0x5C, 0xA7, 0x7A, 0x3E, 0xE3, 0x91, 0x19};
 
 static const char *fk(const verify_opts_t *o) { return o->file_kind ? o->file_kind : "sync"; }
+static int is_omit(const verify_opts_t *o) { return !strncmp(fk(o), "omitted-blocks", 14); }
 
 /* =====================================================================================
  * FSR samples
@@ -51,7 +52,7 @@ static int check_window(struct jls_rd_s *rd, const model_t *m, const win_t *w, c
     if (rc && o->errors_ok) { v_count(o->prop_data, "reads_returned_error", 1); free(buf); return bad; }
     if (rc) {
         int crashkind = strstr(fk(o), "writes") || strstr(fk(o), "torn") || strstr(fk(o), "omitted-blocks");
-        if (crashkind && (!strcmp(fk(o), "omitted-blocks") || !strcmp(fk(o), "torn-header-update"))) snprintf(key, sizeof(key), "read-error|%s", fk(o));
+        if (crashkind && (is_omit(o) || !strcmp(fk(o), "torn-header-update"))) snprintf(key, sizeof(key), "read-error|%s", fk(o));
         else if (crashkind) snprintf(key, sizeof(key), "read-error|rc=%d|%s", rc, fk(o));
         else snprintf(key, sizeof(key), "read-error|rc=%d|bits=%d|unaligned=%d|cross=%d|%s", rc, t->bits, unaligned, cross, fk(o));
         v_violation(o->prop_data, key, wj, "jls_rd_fsr returned %d for an in-range window", rc);
@@ -73,7 +74,7 @@ static int check_window(struct jls_rd_s *rd, const model_t *m, const win_t *w, c
             if (!o->exact_omitted && s->omit_ever && t->bits > 8 && stored == 0) continue;
             if (!o->exact_omitted && s->omit_ever && t->bits > 8 && stored == -2) continue;  /* no decoder view: cannot tell */
             int at_block_start = spd > 0 && (k % spd) == 0;
-            if (!strcmp(fk(o), "omitted-blocks")) snprintf(key, sizeof(key), "data|omitted-blocks");
+            if (is_omit(o)) snprintf(key, sizeof(key), "data|%s", fk(o));
             else if (strstr(fk(o), "writes") || strstr(fk(o), "torn")) snprintf(key, sizeof(key), "data|%s|%s", stored == 0 ? "block-omitted" : "block-stored", fk(o));
             else snprintf(key, sizeof(key), "data|bits=%d|kind=%d|unaligned=%d|cross=%d|%s%s%s|%s", t->bits, t->kind, unaligned, cross,
                      stored == 0 ? "block-omitted" : "block-stored", gap ? "|gap" : "", (at_block_start && i > 0) ? "|first-diff-at-block-start" : "", fk(o));
@@ -257,7 +258,7 @@ static int check_stats_request(struct jls_rd_s *rd, const model_t *m, int sig, c
     if (rc && o->errors_ok) { v_count(PS(o), "statistics_returned_error", 1); free(out); return bad; }
     if (rc) {
         if (t->bits == 64 && rc == JLS_ERROR_UNSUPPORTED_FILE) { v_count(PS(o), "requests_unsupported_64bit", 1); free(out); return bad; }
-        if (!strcmp(fk(o), "omitted-blocks") || !strcmp(fk(o), "torn-header-update")) snprintf(key, sizeof(key), "error-return|%s", fk(o));
+        if (is_omit(o) || !strcmp(fk(o), "torn-header-update")) snprintf(key, sizeof(key), "error-return|%s", fk(o));
         else snprintf(key, sizeof(key), "error-return|rc=%d|level=%d|count%s1|%s", rc, level, count > 1 ? ">" : "=", fk(o));
         v_violation(PS(o), key, wj, "in-range statistics request returned %d", rc);
         free(out);
@@ -273,14 +274,14 @@ static int check_stats_request(struct jls_rd_s *rd, const model_t *m, int sig, c
         double emax = f32s ? (double) (float) all.mx : (double) all.mx;
         if (level == 0) { emin = (double) all.mn; emax = (double) all.mx; }
         if (out[JLS_SUMMARY_FSR_MIN] != emin || out[JLS_SUMMARY_FSR_MAX] != emax) {
-            if (!strcmp(fk(o), "omitted-blocks")) snprintf(key, sizeof(key), "stats-value|omitted-blocks"); else
+            if (is_omit(o)) snprintf(key, sizeof(key), "stats-value|%s", fk(o)); else
             snprintf(key, sizeof(key), "single|minmax|level=%d|%s", level, fk(o));
             v_violation(PS(o), key, wj, "min/max %.10g/%.10g, written samples give %.10g/%.10g", out[JLS_SUMMARY_FSR_MIN], out[JLS_SUMMARY_FSR_MAX], emin, emax);
             bad = 1;
         }
         long double tol = (16 * eps_s + (long double) incr * ldexpl(1.0L, -52)) * amax;
         if (!(fabsl((long double) out[JLS_SUMMARY_FSR_MEAN] - all.mean) <= tol)) {
-            if (!strcmp(fk(o), "omitted-blocks")) snprintf(key, sizeof(key), "stats-value|omitted-blocks"); else
+            if (is_omit(o)) snprintf(key, sizeof(key), "stats-value|%s", fk(o)); else
             snprintf(key, sizeof(key), "single|mean|level=%d|%s", level, fk(o));
             v_violation(PS(o), key, wj, "mean %.12g, exact %.12Lg (tolerance %.3Lg)", out[JLS_SUMMARY_FSR_MEAN], all.mean, tol);
             bad = 1;
@@ -291,7 +292,7 @@ static int check_stats_request(struct jls_rd_s *rd, const model_t *m, int sig, c
         if (incr == 1) { lo = 0; hi = absn; }
         long double g = out[JLS_SUMMARY_FSR_STD];
         if (!(g >= lo && g <= hi)) {
-            if (!strcmp(fk(o), "omitted-blocks")) snprintf(key, sizeof(key), "stats-value|omitted-blocks"); else
+            if (is_omit(o)) snprintf(key, sizeof(key), "stats-value|%s", fk(o)); else
             snprintf(key, sizeof(key), "single|std|level=%d|%s", level, fk(o));
             v_violation(PS(o), key, wj, "std %.12Lg outside [%.12Lg, %.12Lg] (sample std %.12Lg)", g, lo, hi, all.sd);
             bad = 1;
@@ -313,7 +314,7 @@ static int check_stats_request(struct jls_rd_s *rd, const model_t *m, int sig, c
             for (int q = 0; q < 3; ++q) {
                 long double v = e[idx[q]];
                 if (!(v >= w.mn - tol && v <= w.mx + tol)) {
-                    if (!strcmp(fk(o), "omitted-blocks")) snprintf(key, sizeof(key), "stats-value|omitted-blocks"); else
+                    if (is_omit(o)) snprintf(key, sizeof(key), "stats-value|%s", fk(o)); else
                     snprintf(key, sizeof(key), "multi|%s-outside|level=%d|%s", nm[q], level, fk(o));
                     v_violation(PS(o), key, wj, "entry %lld %s %.12Lg outside [%.12Lg, %.12Lg] of its window widened by one increment", (long long) j, nm[q], v, w.mn, w.mx);
                     bad = 1;
@@ -325,7 +326,7 @@ static int check_stats_request(struct jls_rd_s *rd, const model_t *m, int sig, c
             long double avg = msum / count;
             long double tol2 = tol * 4;
             if (!(fabsl(avg - all.mean) <= tol2)) {
-                if (!strcmp(fk(o), "omitted-blocks")) snprintf(key, sizeof(key), "stats-value|omitted-blocks"); else
+                if (is_omit(o)) snprintf(key, sizeof(key), "stats-value|%s", fk(o)); else
                 snprintf(key, sizeof(key), "multi|mean-of-means|level=%d|%s", level, fk(o));
                 v_violation(PS(o), key, wj, "average of entry means %.12Lg, exact mean of range %.12Lg (tolerance %.3Lg)", avg, all.mean, tol2);
                 bad = 1;
